@@ -29,31 +29,31 @@ open Cog.IR
 
 /-- Round trip of the generated Python codec on the proved fragment. -/
 theorem C11_roundtrip_partial (ss : Schemas) (n : Nat) (t : Ty) (j : Json)
-    (h : pyDen n ss t none j = true) :
-    ∃ v, pyFromJson n ss t none j = .ok v ∧ Json.eqv (pyToJson v) j = true := by
-  obtain ⟨v, hv, g⟩ := py_roundtrip_core ss n t none j h
+    (h : pyDen n ss t j = true) :
+    ∃ v, pyFromJson n ss t j = .ok v ∧ Json.eqv (pyToJson v) j = true := by
+  obtain ⟨v, hv, g⟩ := py_roundtrip_core ss n t j h
   exact ⟨v, hv, by simp [Json.eqv, g.enc_sub, g.sub_enc]⟩
 
 /-- The same for a named object (what the lab driver's `roundtrip` does). -/
 theorem C11_object_roundtrip_partial (ss : Schemas) (n : Nat) (pkg name : String) (j : Json)
-    (hw : wfJson j = true) (h : pyDen n ss (.ref pkg name {}) none j = true) :
+    (hw : wfJson j = true) (h : pyDen n ss (.ref pkg name {}) j = true) :
     ∃ j', pyRoundTrip n ss pkg name j = .ok j' ∧ Json.eqv j' j = true := by
   obtain ⟨v, hv, he⟩ := C11_roundtrip_partial ss n _ j h
   exact ⟨pyToJson v, by simp [pyRoundTrip, hw, hv, DRes.map, DRes.bind], he⟩
 
 /-- Decoding never raises, loops or leaves the model on the fragment. -/
 theorem C11_decode_defined_partial (ss : Schemas) (n : Nat) (t : Ty) (j : Json)
-    (h : pyDen n ss t none j = true) :
-    pyFromJson n ss t none j ≠ .err ∧ pyFromJson n ss t none j ≠ .fuel ∧
-      ∀ w, pyFromJson n ss t none j ≠ .unsup w := by
-  obtain ⟨v, hv, _⟩ := py_roundtrip_core ss n t none j h
+    (h : pyDen n ss t j = true) :
+    pyFromJson n ss t j ≠ .err ∧ pyFromJson n ss t j ≠ .fuel ∧
+      ∀ w, pyFromJson n ss t j ≠ .unsup w := by
+  obtain ⟨v, hv, _⟩ := py_roundtrip_core ss n t j h
   rw [hv]; exact ⟨by simp, by simp, by simp⟩
 
 /-- Wire agreement: the JSON Python produces for a document is JSON-equal (up to null members) to
     the JSON Go produces for it, on documents of both proved fragments. -/
 theorem C11_go_py_agree_partial (ssGo ssPy : Schemas) (n m : Nat) (tGo tPy : Ty) (j : Json)
-    (hg : den n ssGo tGo j = true) (hp : pyDen m ssPy tPy none j = true) :
-    ∃ gv pv, goDecode n ssGo tGo j = .ok gv ∧ pyFromJson m ssPy tPy none j = .ok pv ∧
+    (hg : den n ssGo tGo j = true) (hp : pyDen m ssPy tPy j = true) :
+    ∃ gv pv, goDecode n ssGo tGo j = .ok gv ∧ pyFromJson m ssPy tPy j = .ok pv ∧
       Json.eqv (pyToJson pv) (GoVal.goEncode gv) = true := by
   obtain ⟨gv, hgv, hge⟩ := C01_codec_roundtrip_partial ssGo n tGo j hg
   obtain ⟨pv, hpv, hpe⟩ := C11_roundtrip_partial ssPy m tPy j hp
@@ -65,14 +65,14 @@ theorem C11_go_py_agree_partial (ssGo ssPy : Schemas) (n m : Nat) (tGo tPy : Ty)
     JSON-equal document. -/
 def C11_full_roundtrip : Prop :=
   ∀ (ss : Schemas) (n : Nat) (t : Ty) (j : Json), accepts n ss t j = true →
-    ∃ m v, pyFromJson m ss t none j = .ok v ∧ Json.eqv (pyToJson v) j = true
+    ∃ m v, pyFromJson m ss t j = .ok v ∧ Json.eqv (pyToJson v) j = true
 
 /-- Wire part, stated for schemas whose Go and Python post-chain IRs coincide (no unions, no inline
     enums — the witnesses' sources are of that kind, and the lab confirms the two IRs are equal for them):
     whatever both sides produce for an accepted document is JSON-equal. -/
 def C11_full_agree : Prop :=
   ∀ (ss : Schemas) (n : Nat) (t : Ty) (j : Json), accepts n ss t j = true →
-    ∀ m m' gv pv, goDecode m ss t j = .ok gv → pyFromJson m' ss t none j = .ok pv →
+    ∀ m m' gv pv, goDecode m ss t j = .ok gv → pyFromJson m' ss t j = .ok pv →
       Json.eqv (pyToJson pv) (GoVal.goEncode gv) = true
 
 def C11_full : Prop := C11_full_roundtrip ∧ C11_full_agree
@@ -162,15 +162,15 @@ open C11ex
 
 /-! ### non-vacuity -/
 
-example : pyDen 8 C11ex.ss root none docFull = true := by decide +kernel
+example : pyDen 8 C11ex.ss root docFull = true := by decide +kernel
 example : accepts 8 C11ex.ss root docFull = true := by decide +kernel
 example : isOkEqv (pyOut C11ex.ss docFull) docFull = true := by decide +kernel
 /-- a document in both fragments (Go `den`, Python `pyDen`) of a schema both chains leave alike -/
 example : den 8 ssSimple root (.obj [("name", .str "x"), ("child", .obj [("v", n 1)]), ("tags", .arr [.str "t"])]) = true ∧
-    pyDen 8 ssSimple root none (.obj [("name", .str "x"), ("child", .obj [("v", n 1)]), ("tags", .arr [.str "t"])]) = true := by
+    pyDen 8 ssSimple root (.obj [("name", .str "x"), ("child", .obj [("v", n 1)]), ("tags", .arr [.str "t"])]) = true := by
   constructor <;> decide +kernel
 /-- explicit null for optional scalars and collections of scalars IS in the fragment -/
-example : pyDen 8 C11ex.ss root none (.obj [("name", .str "x"), ("tags", .null), ("color", .null)]) = true := by
+example : pyDen 8 C11ex.ss root (.obj [("name", .str "x"), ("tags", .null), ("color", .null)]) = true := by
   decide +kernel
 
 /-! ### the full statement fails on the current tree -/
@@ -200,20 +200,19 @@ theorem C11_counterexample_explicit_null_union :
     isErr (pyOut C11ex.ss (.obj [("name", .str "x"), ("shape", .null)])) = true := by
   constructor <;> decide +kernel
 
-/-- a map nested directly in a map of objects: the inner comprehension reads `data["grid"][key][key]`
-    with the INNER key — KeyError (or the wrong entry when the key also exists outside) -/
-theorem C11_counterexample_nested_map_shadowed_key :
-    accepts 8 C11ex.ss root (.obj [("name", .str "x"), ("grid", .obj [("k1", .obj [("k2", .obj [])])])]) = true ∧
-    isErr (pyOut C11ex.ss (.obj [("name", .str "x"), ("grid", .obj [("k1", .obj [("k2", .obj [])])])])) = true := by
-  constructor <;> decide +kernel
-
-/-- … and silently the wrong entry: `grid.a.a` is copied to `grid.b.a` -/
-theorem C11_counterexample_nested_map_wrong_entry :
+/-- maps nested in maps of objects decode entry-wise (since /repo 60e31f6; before that commit every
+    dict comprehension used the loop variable `key`, the inner body read `data["grid"][inner][inner]`,
+    and these two documents gave a KeyError resp. copied `grid.a.a` into `grid.b.a` — the check's pin
+    `nested-dict-of-structs` replays both on the real generated code, a relapse is a VIOLATION) -/
+theorem C11_nested_map_in_fragment :
+    pyDen 8 C11ex.ss root (.obj [("name", .str "x"), ("grid", .obj [("k1", .obj [("k2", .obj [])])])]) = true ∧
+    pyDen 8 C11ex.ss root (.obj [("name", .str "x"), ("grid", .obj [
+        ("a", .obj [("a", .obj [("v", n 1)])]), ("b", .obj [("a", .obj [("v", n 2)])])])]) = true ∧
     isOkJson (pyOut C11ex.ss (.obj [("name", .str "x"), ("grid", .obj [
         ("a", .obj [("a", .obj [("v", n 1)])]), ("b", .obj [("a", .obj [("v", n 2)])])])]))
       (.obj [("name", .str "x"), ("grid", .obj [
-        ("a", .obj [("a", .obj [("v", n 1)])]), ("b", .obj [("a", .obj [("v", n 1)])])])]) = true := by
-  decide +kernel
+        ("a", .obj [("a", .obj [("v", n 1)])]), ("b", .obj [("a", .obj [("v", n 2)])])])]) = true := by
+  refine ⟨?_, ?_, ?_⟩ <;> decide +kernel
 
 /-- an optional member with a default that the document leaves out is emitted with the default -/
 theorem C11_counterexample_optional_default_emitted :
@@ -244,21 +243,20 @@ theorem C11_counterexample_required_absent_default :
   constructor <;> decide +kernel
 
 /-- `X.from_json(None)` raises as soon as the class has a field that is read from the document -/
-theorem from_json_null_raises (ss : Schemas) (m : Nat) (pkg name : String) (mt : Meta) (ctx : Option (Json × Nat))
-    (o : Obj) (fields : List Field) (g : List Ty) (gi : Option (String × DisjInfo)) (sm : Meta)
+theorem from_json_null_raises (ss : Schemas) (m : Nat) (pkg name : String) (mt : Meta) (o : Obj) (fields : List Field) (g : List Ty) (gi : Option (String × DisjInfo)) (sm : Meta)
     (ho : Schemas.locateObject ss pkg name = some o) (hty : o.ty = .struct fields g gi sm)
     (hf : fields.all isConstField = false) :
-    pyFromJson (m + 1) ss (.ref pkg name mt) ctx .null = .err := by
+    pyFromJson (m + 1) ss (.ref pkg name mt) .null = .err := by
   simp [pyFromJson, ho, hty, classFromJsonWith, hf]
 
 /-- an exception in the decoder of the first field is an exception of `from_json` -/
 theorem from_json_first_field_raises (ss : Schemas) (m : Nat) (pkg name : String) (mt : Meta)
-    (ctx : Option (Json × Nat)) (o : Obj) (f : Field) (rest : List Field) (g : List Ty)
+    (o : Obj) (f : Field) (rest : List Field) (g : List Ty)
     (gi : Option (String × DisjInfo)) (sm : Meta) (members : List (String × Json)) (x : Json)
     (ho : Schemas.locateObject ss pkg name = some o) (hty : o.ty = .struct (f :: rest) g gi sm)
     (hc : isConstField f = false) (hl : Json.lookup f.name members = some x)
-    (hx : pyFromJson m ss f.ty none x = .err) :
-    pyFromJson (m + 1) ss (.ref pkg name mt) ctx (.obj members) = .err := by
+    (hx : pyFromJson m ss f.ty x = .err) :
+    pyFromJson (m + 1) ss (.ref pkg name mt) (.obj members) = .err := by
   simp [pyFromJson, ho, hty, classFromJsonWith, mapRes, pyFieldWith, hc, hl, hx, DRes.bind, DRes.map]
 
 namespace C11ex
@@ -272,7 +270,7 @@ def docNull : Json := .obj [("child", .null)]
 end C11ex
 
 theorem explicit_null_never_ok (m : Nat) (v : PyVal) :
-    pyFromJson m ssNull root none docNull ≠ .ok v := by
+    pyFromJson m ssNull root docNull ≠ .ok v := by
   have hroot : Schemas.locateObject ssNull "p" "Root" = some oRoot := by
     simp [ssNull, Schemas.locateObject, Schemas.locate, Schema.locateObject, Cog.OMap.rget]
   have hnode : Schemas.locateObject ssNull "p" "Node" = some oNode := by
@@ -283,10 +281,10 @@ theorem explicit_null_never_ok (m : Nat) (v : PyVal) :
     simp [root, pyFromJson, hroot, oRoot, classFromJsonWith, docNull, mapRes, pyFieldWith, childField,
       isConstField, isCref, crefVal, constOf, Json.lookup, DRes.bind, DRes.map]
   | m + 2 =>
-    have hchild : pyFromJson (m + 1) ssNull childField.ty none .null = .err :=
-      from_json_null_raises ssNull m "p" "Node" mN none oNode [vField] [] none m0 hnode rfl
+    have hchild : pyFromJson (m + 1) ssNull childField.ty .null = .err :=
+      from_json_null_raises ssNull m "p" "Node" mN oNode [vField] [] none m0 hnode rfl
         (by simp [vField, isConstField, isCref, crefVal, constOf, tIntN, isNilVal])
-    have := from_json_first_field_raises ssNull (m + 1) "p" "Root" {} none oRoot childField [] [] none m0
+    have := from_json_first_field_raises ssNull (m + 1) "p" "Root" {} oRoot childField [] [] none m0
       [("child", .null)] .null hroot rfl
       (by simp [childField, isConstField, isCref, crefVal, constOf]) (by simp [childField, Json.lookup]) hchild
     simp only [root, docNull]
@@ -302,12 +300,12 @@ theorem C11_full_agree_counterexample : ¬ C11_full_agree := by
   intro h
   have hacc := C11_counterexample_empty_optional_list_differs_from_go.1
   have hne : (match goDecode 8 ssSimple root (.obj [("name", .str "x"), ("tags", .arr [])]),
-                    pyFromJson 8 ssSimple root none (.obj [("name", .str "x"), ("tags", .arr [])]) with
+                    pyFromJson 8 ssSimple root (.obj [("name", .str "x"), ("tags", .arr [])]) with
               | .ok gv, .ok pv => !(Json.eqv (pyToJson pv) (GoVal.goEncode gv))
               | _, _ => false) = true := by decide +kernel
   cases hg : goDecode 8 ssSimple root (.obj [("name", .str "x"), ("tags", .arr [])]) with
   | ok gv =>
-    cases hp : pyFromJson 8 ssSimple root none (.obj [("name", .str "x"), ("tags", .arr [])]) with
+    cases hp : pyFromJson 8 ssSimple root (.obj [("name", .str "x"), ("tags", .arr [])]) with
     | ok pv =>
       have := h ssSimple 8 root _ hacc 8 8 gv pv hg hp
       simp [hg, hp, this] at hne
